@@ -4,3 +4,4 @@ import Dtr.Props.C16
 #print axioms Dtr.C16_assemble
 #print axioms Dtr.C16_load_test
 #print axioms Dtr.C16_load_by_name
+#print axioms Dtr.C16_text_ignores_comments
